@@ -302,3 +302,173 @@ def run(ctx):
     # first backward step, a cached evaluation): every step is a function of its arguments (rule of C13)
     from . import c13
     ctx.guard(c13.r13_1)
+
+
+# ------------------------------------------------------------------------------------------------ R10.7
+class FT:
+    """A time as a floating-point expression tree with a concrete rational shadow.
+
+    The shadow orders times (which branch the driver takes); the tree records *how* the value is computed: `add` is the
+    rounded floating-point sum -- commutative, NOT associative; negation is exact and distributes over a sum
+    (round-to-nearest is symmetric); a - b is a + (-b).  Two times are the same double for every dt exactly when their
+    trees coincide."""
+
+    def __init__(self, tree, shadow):
+        self.tree, self.shadow = tree, Fraction(shadow)
+
+    @staticmethod
+    def lift(x):
+        if isinstance(x, FT):
+            return x
+        if isinstance(x, Rat):
+            x = x.const_value()
+        if isinstance(x, (int, float, Fraction)) and not isinstance(x, bool):
+            return FT(("const", nf.frac(x)), nf.frac(x))
+        return None
+
+    def sim_key(self):
+        return self.shadow
+
+    def sim_neg(self):
+        return FT(_ft_neg(self.tree), -self.shadow)
+
+    def sim_binop(self, op, l, r):
+        L, R = FT.lift(l), FT.lift(r)
+        if L is None or R is None:
+            return NotImplemented
+        if isinstance(op, ast.Add):
+            return FT(("add",) + tuple(sorted((L.tree, R.tree), key=repr)), L.shadow + R.shadow)
+        if isinstance(op, ast.Sub):
+            return L.sim_binop(ast.Add(), L, R.sim_neg())
+        if isinstance(op, ast.Mult):
+            return FT(("mul",) + tuple(sorted((L.tree, R.tree), key=repr)), L.shadow * R.shadow)
+        if isinstance(op, ast.Div):
+            return FT(("div", L.tree, R.tree), L.shadow / R.shadow)
+        return NotImplemented
+
+    def sim_compare(self, op, l, r):
+        L, R = FT.lift(l), FT.lift(r)
+        if L is None or R is None:
+            return NotImplemented
+        a, b = L.shadow, R.shadow
+        table = {ast.Lt: a < b, ast.LtE: a <= b, ast.Gt: a > b, ast.GtE: a >= b, ast.Eq: a == b, ast.NotEq: a != b}
+        return table.get(type(op), NotImplemented)
+
+    def __repr__(self):
+        return _ft_show(self.tree)
+
+
+def _ft_neg(t):
+    if t[0] == "neg":
+        return t[1]
+    if t[0] == "const":
+        return ("const", -t[1])
+    if t[0] == "add":
+        return ("add",) + tuple(sorted((_ft_neg(t[1]), _ft_neg(t[2])), key=repr))
+    return ("neg", t)
+
+
+def _ft_show(t):
+    if t[0] == "sym":
+        return t[1]
+    if t[0] == "const":
+        return str(t[1])
+    if t[0] == "neg":
+        return f"-{_ft_show(t[1])}"
+    if t[0] == "add":
+        return "(" + " (+) ".join(_ft_show(x) for x in t[1:]) + ")"
+    return t[0] + "(" + ", ".join(_ft_show(x) for x in t[1:]) + ")"
+
+
+def _grid_of_solve(model, t_start, t_end, dt):
+    """The (ta, tb) of every step `integrate` takes over [t_start, t_end] with fixed steps, times as FT values."""
+    from . import integrate_kit as ik
+    integrate = model.func(ik.BASE_SOLVER, "BaseSDESolver.integrate")
+    steps = []
+    me = ik.make_self(model, False, steps)
+    me.attrs["dt"] = dt
+    me.attrs["dt_min"] = FT(("sym", "dt_min"), Fraction(1, 10 ** 5))
+
+    def step(it, args, kwargs, node, fi):
+        steps.append(tuple(args))
+        return (nf.sym(f"y{len(steps)}"), nf.sym(f"extra{len(steps)}"))
+    me.attrs["step"] = Intrinsic("self.step", step)
+
+    def getitem(it, obj, idx, node, fi):
+        seq = [t_start, t_end]
+        return seq[idx]
+    ts = Obj("ts", getitem_hook=getitem, attrs={"__len__": Intrinsic("len", lambda it, a, k, n, f: Fraction(2))})
+
+    class H(ik.LoopHooks):
+        def on_call(self, interp, callee, args, kwargs, node, fi):
+            if isinstance(callee, Closure) and callee.fi is not None and callee.fi.name == "linear_interp":
+                return nf.fn("INTERP")
+            return ik.LoopHooks.on_call(self, interp, callee, args, kwargs, node, fi)
+    it = Interp(model, H({}))
+    it.call_function(integrate, [me, nf.sym("y0"), ts, nf.sym("extra0")], {})
+    return integrate, [(s[0], s[1]) for s in steps]
+
+
+def r10_7(ctx):
+    """Forward and backward solve query the Brownian motion on the same intervals, as floating-point numbers.
+
+    R09.4 / R10.x establish that the backward pass integrates over (-ts[i], -ts[i-1]) with the forward dt on
+    ReverseBrownian(bm).  A BrownianInterval with tol = 0 resolves every distinct double: two query intervals whose end
+    points differ by one ulp return increments that differ by O(sqrt(ulp)) = 1e-8, which is what the reconstructed
+    trajectory, and so the gradient, then differs by.  Bit-equal grids for *every* dt need the two grids to be the same
+    floating-point expressions of (ts, dt); equality that holds only in exact arithmetic is not enough."""
+    rep, model = ctx.rep, ctx.model
+    rep.rule("R10.7", "the Brownian query intervals of the backward solve are, as floating-point expressions of (ts, dt), the "
+                      "query intervals of the forward solve")
+    from . import brownian_kit as bk
+    T0, T1 = FT(("sym", "ts[i-1]"), 0), FT(("sym", "ts[i]"), Fraction(3, 10))
+    dt = FT(("sym", "dt"), Fraction(1, 10))
+    integrate, fwd = _grid_of_solve(model, T0, T1, dt)
+    rep.analysed(integrate)
+    _, bwd_raw = _grid_of_solve(model, T1.sim_neg(), T0.sim_neg(), dt)
+    # the time map of ReverseBrownian, by evaluating it
+    rb = model.func(bk.DERIVED, "ReverseBrownian.__call__")
+    rep.analysed(rb)
+    queries = []
+
+    def base(it, a, k, n, f):
+        queries.append((a[0], a[1]))
+        return nf.sym("W")
+    me = Obj("reverse-bm", cls=model.cls(bk.DERIVED, "ReverseBrownian"), attrs={"base_brownian": Intrinsic("base", base)})
+    it = Interp(model, bk.BrownianHooks())
+    for ta, tb in bwd_raw:
+        it.call_function(rb, [me, ta, tb], {})
+    bwd = list(reversed(queries))
+    if len(fwd) != 3 or len(bwd) != 3:
+        raise AnalysisError(f"R10.7: the model solve over three steps takes {len(fwd)} forward and {len(bwd)} backward steps",
+                            where=astq.loc(integrate))
+    # one obligation for the whole grid; the construct names which output time each of the two expressions of the first
+    # differing grid point is built up from (not the expressions themselves, which a re-association would change)
+    bad = [(k, a, b_, c, d) for k, ((a, b_), (c, d)) in enumerate(zip(fwd, bwd))
+           if not (isinstance(a, FT) and isinstance(c, FT) and isinstance(b_, FT) and isinstance(d, FT)
+                   and a.tree == c.tree and b_.tree == d.tree)]
+    if not bad:
+        rep.ok("R10.7", astq.loc(integrate), f"{integrate.key}::R10.7::grid", "forward and backward grids coincide as expressions")
+    else:
+        k, a, b_, c, d = bad[0]
+        x, y = (b_, d) if a.tree == c.tree else (a, c)
+        def anchors(t):
+            if t[0] == "sym":
+                return set() if t[1] in ("dt", "dt_min") else {t[1]}
+            return set().union(*[anchors(c) for c in t[1:] if isinstance(c, tuple)]) if len(t) > 1 else set()
+        ax, ay = "+".join(sorted(anchors(x.tree))) or "nothing", "+".join(sorted(anchors(y.tree))) or "nothing"
+        rep.fail("R10.7", astq.loc(integrate), f"{integrate.key}::R10.7::grid::forward from {ax}::backward from {ay}",
+                 f"model solve of three steps over [ts[i-1], ts[i]] = [0, 3 dt]: in step {k + 1} the forward solve queries the "
+                 f"Brownian motion on [{a}, {b_}], the backward solve on [{c}, {d}] ({len(bad)} of 3 steps differ): equal in "
+                 f"exact arithmetic only -- for a dt that is not exactly representable (0.1, 0.01, the default 1e-3) the end "
+                 f"points differ by an ulp, a BrownianInterval with tol = 0 returns increments that differ by O(sqrt(ulp)) "
+                 f"~ 1e-8, and so do the reconstructed trajectory and the gradients")
+    ctx.floor("R10.7", 1)
+
+
+_run_c10g = run
+
+
+def run(ctx):
+    _run_c10g(ctx)
+    ctx.guard(r10_7)
